@@ -985,6 +985,12 @@ func (p *Parser) parseBlockStmt() *ast.BlockStmt {
 	stmt := &ast.BlockStmt{Token: p.curToken}
 
 	for !p.curTokenIs(token.END) {
+		// the input ended, or cannot be lexed further, inside the block;
+		// the caller reports the missing "@end"
+		if p.curTokenIs(token.EOF) || p.curTokenIs(token.ILLEGAL) {
+			break
+		}
+
 		block := p.parseStatement()
 
 		if block != nil {
